@@ -10,7 +10,7 @@ from argparse import ArgumentParser
 from asyncio import shield, StreamReader, StreamWriter, AbstractServer, \
     CancelledError, TimeoutError
 from base64 import b64encode, b64decode
-from collections.abc import Awaitable, Iterable
+from collections.abc import Awaitable, Iterable, Sequence
 from contextlib import closing, AsyncExitStack
 from ssl import SSLError
 from typing import TypeVar
@@ -299,10 +299,16 @@ class IMAPConnection:
             await self.write_response(resp)
 
     async def handle_updates(self, state: ConnectionState, done: Event,
-                             cmd: IdleCommand) -> None:
+                             cmd: IdleCommand) -> Sequence[Response]:
         while not done.is_set():
-            untagged = await self._exec(state.receive_updates(cmd, done))
+            untagged = list(await self._exec(
+                state.receive_updates(cmd, done)))
+            if any(resp.is_terminal for resp in untagged):
+                # the selected mailbox is gone: nothing more will come, and
+                # the connection ends with the reply these are sent with
+                return untagged
             await shield(self.write_updates(untagged))
+        return []
 
     async def idle(self, state: ConnectionState, cmd: IdleCommand) \
             -> CommandResponse:
@@ -316,14 +322,25 @@ class IMAPConnection:
         done_task = asyncio.create_task(self.read_idle_done(cmd))
         updates_exc: Exception | None = None
         done_exc: Exception | None = None
+        ok = True
         try:
-            ok = await done_task
+            # not only DONE ends it: the updates may fail or run dry
+            await asyncio.wait({done_task, updates_task},
+                               return_when=asyncio.FIRST_COMPLETED)
+            if done_task.done():
+                ok = await done_task
+            else:
+                done_task.cancel()
+        except CancelledError:
+            done_task.cancel()
+            raise
         except Exception as exc:
             done_exc = exc
         finally:
             done.set()
+        last: Sequence[Response] = []
         try:
-            await updates_task
+            last = await updates_task
         except Exception as exc:
             updates_exc = exc
         if updates_exc:
@@ -331,9 +348,9 @@ class IMAPConnection:
         elif done_exc:
             raise done_exc
         elif not ok:
-            return ResponseBad(cmd.tag, b'Expected "DONE".')
-        else:
-            return response
+            response = ResponseBad(cmd.tag, b'Expected "DONE".')
+        response.add_untagged(*last)
+        return response
 
     async def run(self, state: ConnectionState) -> None:
         """Start the socket communication with the IMAP greeting, and then
